@@ -271,6 +271,161 @@ write_all = FunctionContract(
 CONTRACTS.append(write_all)
 
 
+# ------------------------------------------------------------------ close(): discarding the writer
+def setup_close(cx):
+    world2(cx)
+    q = cx.box('open_files', TSeq(Entry))
+    cx.spec_env['q0'] = SV(TSeq(Entry), q.e)
+    return dict(self=cx.obj('DeferredFileWriter', open_files=q))
+
+
+close_all = FunctionContract(
+    F, 'DeferredFileWriter.close', 'C07', setup=setup_close, spec_defs=SPECW, spec_env=dict(Path=Path),
+    locals=dict(),
+    ghost_at={'entry': "g_done = 0"},
+    ensures=[
+        "len(self.open_files) == 0",
+        # discarding the writer leaves every destination (every file that is not one of its temporary files) untouched for good
+        "forall(lambda p: implies(forall(lambda i: implies(0 <= i and i < len(q0), p != q0[i][0])), "
+        "   (p in FS) == (p in old(FS)) and implies(p in FS, FS[p] == old(FS)[p])), Path)",
+    ],
+    modifies=['FS', 'self.open_files'],
+    loops={'L1': LoopSpec(
+        inv=["0 <= g_done and g_done <= len(q0) and len(self.open_files) == len(q0) - g_done",
+             "forall(lambda i: implies(0 <= i and i < len(self.open_files), self.open_files[i] == q0[g_done + i]))",
+             "forall(lambda p: implies(forall(lambda i: implies(0 <= i and i < len(q0), p != q0[i][0])), "
+             "   (p in FS) == (p in old(FS)) and implies(p in FS, FS[p] == old(FS)[p])), Path)"],
+        modifies=['FS', 'self.open_files'],
+        ghost_end="g_done += 1")},
+    canary=[("os.remove(tmp_path)", "os.remove(_[0])")],
+)
+CONTRACTS.append(close_all)
+
+
+# ------------------------------------------------------------------ __init__: the pending table starts empty
+init_writer = FunctionContract(
+    F, 'DeferredFileWriter.__init__', 'C07', setup=lambda cx: (world2(cx), dict(self=cx.obj('DeferredFileWriter')))[1],
+    spec_defs=SPECW, spec_env=dict(Path=Path), locals={'self.open_files': TSeq(Entry)},
+    ensures=["len(self.open_files) == 0", "FS == old(FS)" if False else
+             "forall(lambda p: (p in FS) == (p in old(FS)) and implies(p in FS, FS[p] == old(FS)[p]), Path)"],
+)
+CONTRACTS.append(init_writer)
+
+
+# ------------------------------------------------------------------ open(): the pending table and its class invariant
+def setup_open(cx):
+    FS = world2(cx)
+    eng = cx.eng
+    q = cx.box('open_files', TSeq(Entry))
+    cx.spec_env['q0'] = SV(TSeq(Entry), q.e)
+    joinp = cx.uf('joinp', [Path, Path], Path)             # path.parent.resolve() / path.name
+    is_tmp = cx.uf('is_tmp', [Path], TBool)                # names handed out by tempfile.mkstemp
+    backup = cx.uf('backup', [Path, TInt], Path)
+    empty = z3.Const('empty_content', Content.sort())
+    p_, k_ = z3.Const('p', Path.sort()), z3.Int('k')
+    cx.assume(z3.ForAll([p_, k_], z3.Not(is_tmp(backup(p_, k_)))))
+
+    def parent(e, x):
+        d, r = Obj('Dir'), Obj('AbsDir')
+        d.attrs['resolve'] = Builtin(lambda e2: r, 'resolve')
+        r.attrs['__truediv__'] = Builtin(lambda e2, name: wrap(Path, joinp(to_z3(x, Path), to_z3(name, Path))), '/')
+        return d
+    eng.attr_hooks[('Path', 'parent')] = parent
+    eng.attr_hooks[('Path', 'suffix')] = lambda e, x: wrap(TStr, e.fresh(TStr, 'suffix'))
+
+    def mkstemp(e, suffix=None, dir=None):
+        # assumed contract of tempfile.mkstemp: creates a new, empty file under a name that did not exist
+        t = e.fresh(Path, 'tmp')
+        e.assume(z3.And(z3.Not(FSMap.has(FS.e, t)), is_tmp(t)))
+        FS.e = FSMap.insert(FS.e, t, empty)
+        return (Obj('fd'), SV(Path, t))
+    tempfile = Obj('tempfile')
+    tempfile.attrs['mkstemp'] = Builtin(mkstemp, 'tempfile.mkstemp')
+    cx.spec_env['tempfile'] = tempfile
+
+    def may_fail(e):
+        e.maybe_raise(e.fresh(TBool, 'os_ok'), 'OSError')
+
+    def _open_sym(e, path, mode='r', *a, **k):
+        # assumed contract of builtins.open: may fail; touches at most the named file, and not even that when the mode
+        # only reads
+        pe, m = to_z3(path, Path), to_z3(mode, TStr)
+        may_fail(e)
+        readonly = z3.Not(z3.Or(*[z3.Contains(m, z3.StringVal(c)) for c in 'wa+x']))
+        cur = FS.e
+        r = e.fresh(FSMap, 'fs')
+        x = z3.FreshConst(Path.sort(), 'fx')
+        e.assume(z3.ForAll([x], z3.Implies(z3.Or(x != pe, readonly),
+                                           z3.And(FSMap.has(r, x) == FSMap.has(cur, x), FSMap.at(r, x) == FSMap.at(cur, x)))))
+        e.assume(z3.Implies(z3.Not(readonly), FSMap.has(r, pe)))
+        FS.e = r
+        return Obj('Handle')
+    cx.spec_env['_open'] = Builtin(_open_sym, '_open')
+
+    def fdopen(e, fd, mode='r', *a, **k):
+        may_fail(e)
+        return Obj('Handle')
+    cx.spec_env['os'].attrs['fdopen'] = Builtin(fdopen, 'os.fdopen')
+
+    def copy2(e, src, dst):
+        se, de = to_z3(src, Path), to_z3(dst, Path)
+        e.maybe_raise(FSMap.has(FS.e, se), 'FileNotFoundError')
+        FS.e = FSMap.insert(FS.e, de, FSMap.at(FS.e, se))
+    cx.spec_env['shutil'].attrs['copy2'] = Builtin(copy2, 'shutil.copy2')
+    return dict(self=cx.obj('DeferredFileWriter', open_files=q, _tmpdir=None), filename=cx.val('filename', Path),
+                mode=cx.val('mode', TStr), args=(), kwargs={})
+
+
+def pending_ok(q):
+    return [c.replace('q0', q) for c in PENDING_OK] + [
+        "forall(lambda i: implies(0 <= i and i < len(%s), is_tmp(%s[i][0]) and not is_tmp(%s[i][1])))" % (q, q, q)]
+
+
+SPECO = dict(SPECW)
+SPECO.update({
+    'dest': "lambda: joinp(filename, filename)",
+    'pending': "lambda: exists(lambda i: 0 <= i and i < len(q0) and q0[i][1] == dest())",
+    'deferred': "lambda m: '+' in m or 'a' in m or 'w' in m",
+    # a Python file mode names exactly one of read / write / append / create
+    'valid_mode': "lambda m: ((1 if 'r' in m else 0) + (1 if 'w' in m else 0) + (1 if 'a' in m else 0) + (1 if 'x' in m else 0)) == 1",
+    'untouched_except': "lambda t: forall(lambda p: implies(p != t, (p in FS) == (p in old(FS)) and "
+                        "implies(p in FS, FS[p] == old(FS)[p])), Path)",
+})
+OPEN_FRAME_EXC = ("forall(lambda p: implies(not is_tmp(p), (p in FS) == (p in old(FS)) and implies(p in FS, FS[p] == old(FS)[p])), Path)")
+open_deferred = FunctionContract(
+    F, 'DeferredFileWriter.open', 'C07', setup=setup_open, spec_defs=SPECO, spec_env=dict(Path=Path), params=['self', 'filename', 'mode'],
+    modular=False,
+    requires=pending_ok('q0') + [
+        "valid_mode(mode)",
+        # the destination is not itself a temporary-file name or a '#name.N#' backup name
+        "not is_tmp(dest())", "forall(lambda p, k: backup(p, k) != dest(), Path, TInt)",
+        # the file named for a pure read is not one of the writer's own temporary files
+        "not is_tmp(filename)"],
+    ensures=pending_ok('self.open_files') + [
+        # destinations (everything that is not one of the writer's temporary files) are untouched until finalisation
+        OPEN_FRAME_EXC,
+        # a destination that is already pending, or a file opened only for reading: the pending table is unchanged
+        "implies(pending() or not deferred(mode), len(self.open_files) == len(q0) and "
+        "   forall(lambda i: implies(0 <= i and i < len(q0), self.open_files[i] == q0[i])))",
+        "implies(not pending() and not deferred(mode), untouched_except(filename) and FS == old(FS))" if False else
+        "implies(not pending() and not deferred(mode), forall(lambda p: (p in FS) == (p in old(FS)) and "
+        "   implies(p in FS, FS[p] == old(FS)[p]), Path))",
+        # a new destination opened for writing: exactly one new entry (fresh temporary file, destination, mode) at the end
+        "implies(not pending() and deferred(mode), len(self.open_files) == len(q0) + 1 and "
+        "   forall(lambda i: implies(0 <= i and i < len(q0), self.open_files[i] == q0[i])) and "
+        "   self.open_files[len(q0)][1] == dest() and self.open_files[len(q0)][2] == mode and "
+        "   not (self.open_files[len(q0)][0] in old(FS)) and untouched_except(self.open_files[len(q0)][0]))",
+    ],
+    raises={'OSError': pending_ok('self.open_files') + [OPEN_FRAME_EXC],
+            'KeyError': ["not pending() and not deferred(mode) and not ('r' in mode)", "len(self.open_files) == len(q0)"]},
+    modifies=['FS', 'self.open_files'],
+    loops={'L1': LoopSpec(inv=["forall(lambda i: implies(0 <= i and i < _i, q0[i][1] != path))", "path == dest()"])},
+    canary=[("if '+' in mode or 'a' in mode or 'w' in mode:", "if 'a' in mode or 'w' in mode:"),
+            ("if open_path == path:", "if tmp_path == path:")],
+)
+CONTRACTS.append(open_deferred)
+
+
 # ------------------------------------------------------------------ the gate of the command line (region of entry())
 def setup_gate(cx):
     eng = cx.eng
@@ -316,6 +471,18 @@ cli_gate = FunctionContract(
     canary=[("if leftover_warnings:", "if leftover_warnings > 1:"), ("sys.exit(2)", "sys.exit(0)")],
 )
 CONTRACTS.append(cli_gate)
+
+# "the warnings left after -maxwarn": the gate's input is the value of ignore_warnings_and_count, whose contract (the exact
+# count of warnings that are not waived, C08) is re-verified here so that the gate's `leftover` means what C07 says it means.
+import copy as _copy
+from contracts import c08 as _c08
+for _c in (_c08.number_of_counts_by, _c08.ignore_warnings_and_count):
+    _c = _copy.copy(_c)
+    _c.prop = 'C07'
+    CONTRACTS.append(_c)
+_l = _copy.copy(_c08.L_split)
+_l.prop = 'C07'
+LEMMAS.append(_l)
 
 
 # ------------------------------------------------------------------ frame: nothing writes a file except through the
